@@ -141,12 +141,142 @@ var c08Hostile = []string{
 	"=>", "func f[", "func (...) f(", "func f(...) (...) {", ":=", "x: ", "goto", "fallthrough", "0x", "1e", "'\\", strings.Repeat("(", 200), strings.Repeat("x.", 300) + "x",
 }
 
+// c08Shapes is a target that holds most statement and declaration forms twice:
+// once with every optional part present and once with it absent, over the
+// vocabulary the repository's patches and the templates use.
+const c08Shapes = `package foo
+
+import (
+	"errors"
+	"fmt"
+)
+
+type T struct {
+	A int
+	T
+	b string ` + "`tag`" + `
+}
+
+type I interface {
+	f()
+	fmt.Stringer
+}
+
+type G[K comparable, V any] map[K]V
+
+type Alias = T
+
+var x, y = 1, 2
+
+var z int
+
+const (
+	c0 = iota
+	c1
+)
+
+func f() {}
+
+func g(int, ...string) (n int, err error) { return }
+
+func (t T) m() T { return t }
+
+func (*T) p(a, b int) {}
+
+func gen[K comparable](k K) K { return k }
+
+func body(a []int, ch chan int, m map[string]int) (int, error) {
+	foo()
+	foo(x)
+	foo(x, y)
+	bar(a...)
+	x := foo(1)
+	x, y = y, x
+	var v T
+	var w = T{}
+	var u, _ = 1, 2
+	_ = T{A: 1}
+	_ = []T{{}, {A: 2}}
+	_ = a[:]
+	_ = a[1:]
+	_ = a[:2]
+	_ = a[1:2:3]
+	_ = m["k"]
+	_ = gen[int](1)
+	_ = func() {}
+	_ = func(x int) int { return x }
+	_, _ = v, w
+	if x {
+	}
+	if x := y; x != nil {
+		foo(x)
+	} else if y {
+	} else {
+		bar()
+	}
+	for {
+		break
+	}
+	for x < y {
+		continue
+	}
+	for i := 0; i < 3; i++ {
+	}
+	for range ch {
+	}
+	for k := range m {
+		_ = k
+	}
+	for k, v := range m {
+		_, _ = k, v
+	}
+L:
+	for {
+		break L
+	}
+	switch {
+	default:
+	}
+	switch x {
+	case 1, 2:
+		fallthrough
+	case 3:
+	}
+	switch v := any(x).(type) {
+	case int:
+		_ = v
+	}
+	switch any(x).(type) {
+	}
+	select {
+	case <-ch:
+	case v := <-ch:
+		_ = v
+	case ch <- 1:
+	default:
+	}
+	go f()
+	go func() {}()
+	defer f()
+	defer foo(x)
+	x++
+	ch <- 1
+	{
+	}
+	goto L
+	if err := errors.New("e"); err != nil {
+		return 0, fmt.Errorf("w: %w", err)
+	}
+	return
+}
+`
+
 func c08Targets() []string {
 	var ts []string
 	for _, f := range corpus.RepoInputs() {
 		ts = append(ts, string(f.Src))
 	}
-	ts = append(ts, "package a\n", "package a\n\nfunc f() {\n\tfoo(1, 2)\n\tx := bar(y)\n\tif x != nil {\n\t\treturn\n\t}\n\tfor i := range x {\n\t\t_ = i\n\t}\n}\n\ntype T struct {\n\tA int\n}\n\nvar v = 1\n")
+	ts = append(ts, c08Shapes, "package a\n", "package a\n\nfunc f() {\n\tfoo(1, 2)\n\tx := bar(y)\n\tif x != nil {\n\t\treturn\n\t}\n\tfor i := range x {\n\t\t_ = i\n\t}\n}\n\ntype T struct {\n\tA int\n}\n\nvar v = 1\n")
 	return ts
 }
 
